@@ -97,6 +97,38 @@ fn main() {
             });
         }
     });
+    // simultaneous FIRST queries on freshly built states (a lazily initialised cache would be raced here):
+    // every round builds a fresh state, all threads wait at a barrier and then query it at once.
+    let immobilised = [
+        "7g\n +-----------------+\n8|               r |\n7|                 |\n6|     x     x     |\n5|                 |\n4|                 |\n3|     x     x     |\n2| c               |\n1| R c             |\n +-----------------+\n   a b c d e f g h\n",
+        "7s\n +-----------------+\n8| r D             |\n7| D               |\n6|     x     x     |\n5|                 |\n4|                 |\n3|     x     x     |\n2|                 |\n1|               R |\n +-----------------+\n   a b c d e f g h\n",
+    ];
+    let rounds = nstates.max(200) * 4;
+    let race_mismatch = std::sync::atomic::AtomicUsize::new(0);
+    for r in 0..rounds {
+        let fresh: GameState = if r % 2 == 0 { immobilised[(r / 2) % 2].parse().unwrap() } else { states[r % states.len()].clone() };
+        let expect_state: GameState = if r % 2 == 0 { immobilised[(r / 2) % 2].parse().unwrap() } else { states[r % states.len()].clone() };
+        let expect = (term_str(&expect_state.is_terminal()).to_string(), expect_state.valid_actions().len(), expect_state.transposition_hash());
+        let barrier = std::sync::Barrier::new(threads);
+        let fr = &fresh;
+        let ex = &expect;
+        let rm = &race_mismatch;
+        let exps = &expansions;
+        std::thread::scope(|sc| {
+            for _ in 0..threads {
+                let b = &barrier;
+                sc.spawn(move || {
+                    b.wait();
+                    let got = (term_str(&fr.is_terminal()).to_string(), fr.valid_actions().len(), fr.transposition_hash());
+                    exps.fetch_add(1, std::sync::atomic::Ordering::Relaxed);
+                    if got != *ex {
+                        rm.fetch_add(1, std::sync::atomic::Ordering::Relaxed);
+                    }
+                });
+            }
+        });
+    }
+    mismatches.fetch_add(race_mismatch.load(std::sync::atomic::Ordering::Relaxed), std::sync::atomic::Ordering::Relaxed);
     // the shared states are unchanged afterwards
     let after: Vec<String> = states.iter().map(expand).collect();
     let changed = after.iter().zip(sequential.iter()).filter(|(a, b)| a != b).count();
